@@ -252,6 +252,9 @@ def sum_and_index():
     for nm, mk in funcs().items():
         f = mk()
         fv = list(f.value())
+        if len(f) != len(fv):
+            fail('len-value', {'function': nm, 'len(f)': len(f),
+                               'len(f.value())': len(fv)})
         try:
             g = msum(f)
             gv = list(g.value())
